@@ -537,6 +537,32 @@ func c08IntCases(c *Ctx) []c08IntCase {
 			}
 		}
 	}
+	// the long regime: lengths beyond any small fixed-size scratch area or growth step, one dimension at
+	// a time (all four index-option settings, with and without capacity, a nil slot), index values at
+	// every boundary
+	longLens := []int{9, 10, 11, 17, 33}
+	if !c.Quick() {
+		longLens = []int{8, 9, 10, 11, 12, 16, 17, 31, 32, 33, 34, 40, 62}
+	}
+	for li, n := range longLens {
+		full := (1 << n) - 1
+		for _, mask := range []int{full, full &^ 2} {
+			for o := 0; o < 4; o++ {
+				for _, cp := range []int{0, n + 1} {
+					cf := c08Cfg{kindNames[(li+o)%5], n, mask, o&1 != 0, o&2 != 0, cp, cp != 0 && o == 3}
+					idx := []int{math.MinInt, math.MaxInt, -n - 1, -n, -n + 1, -2, -1, 0, 1, n / 2, n - 2, n - 1, n, n + 1}
+					for _, i := range idx {
+						for _, op := range []string{"Index", "Remove", "Replace", "Traverse", "Insert", "Defrag"} {
+							out = append(out, c08IntCase{cf, op, []int{i}})
+						}
+						for _, j := range idx {
+							out = append(out, c08IntCase{cf, "Swap", []int{i, j}}, c08IntCase{cf, "Less", []int{i, j}})
+						}
+					}
+				}
+			}
+		}
+	}
 	return out
 }
 
